@@ -372,7 +372,9 @@ func (c *Client) doWithRedirects(cli *http.Client, req *http.Request, remote str
 		return nil, errors.New(tr.Tr.Get("failed to redirect request"))
 	}
 
-	return c.doWithRedirects(cli, redirectedReq, remote, via)
+	// DoWithRedirect() counts the hops in its own copy of the slice header:
+	// hand the grown chain on, or the hop limit is never reached.
+	return c.doWithRedirects(cli, redirectedReq, remote, append(via, req))
 }
 
 func (c *Client) configureProtocols(u *url.URL, transport *http.Transport) error {
